@@ -20,6 +20,8 @@ import (
 
 var errInjected = errors.New("injected I/O failure")
 
+var c19FaultErrs = []error{errInjected, io.ErrUnexpectedEOF, io.ErrClosedPipe, io.ErrNoProgress}
+
 // planReader delivers data cut at the given offsets; optionally returns the last chunk
 // together with io.EOF; optionally fails (persistently) once failAt bytes were delivered.
 type planReader struct {
@@ -29,12 +31,16 @@ type planReader struct {
 	single  bool // one byte per Read
 	eofWith bool
 	failAt  int // -1: never
+	failErr error
 	reads   int
 }
 
 func (r *planReader) Read(p []byte) (int, error) {
 	r.reads++
 	if r.failAt >= 0 && r.pos >= r.failAt {
+		if r.failErr != nil {
+			return 0, r.failErr
+		}
 		return 0, errInjected
 	}
 	if r.pos >= len(r.data) {
@@ -148,9 +154,15 @@ func c19Reader(c *mc.Ctx) {
 		} else {
 			pr.failAt = c.Pick("fail-at", n+1)
 		}
+		// the error value itself: an opaque error, and the ones the standard library's own readers
+		// return for a stream cut short (gzip, HTTP bodies: io.ErrUnexpectedEOF) or a closed pipe
+		// (with planned cuts the opaque error only: the error value and the cut positions do not interact)
+		if mode != 0 {
+			pr.failErr = c19FaultErrs[c.Pick("error-value", len(c19FaultErrs))]
+		}
 	}
 	c.Case(func() string {
-		return fmt.Sprintf("reader doc=%s (%d bytes: %q) delivery=%d cuts=%v eofWithData=%v failAt=%d", d.name, n, clipBytes(d.data, 60), mode, cutList, pr.eofWith, pr.failAt)
+		return fmt.Sprintf("reader doc=%s (%d bytes: %q) delivery=%d cuts=%v eofWithData=%v failAt=%d failWith=%v", d.name, n, clipBytes(d.data, 60), mode, cutList, pr.eofWith, pr.failAt, pr.failErr)
 	})
 	c.Class("reader/" + d.name)
 	// whole-buffer baseline
